@@ -5,7 +5,7 @@ import ast
 
 from .. import AnalysisError
 from ..model import resolve_handler
-from ..ratfun import Rat
+from ..ratfun import Poly as RPoly, Rat
 from ..rules import (effective_member, handler_summaries, is_raising, mapper_node_pairs, where)
 from ..summary import NODE, base_field, contains, summarize
 
@@ -18,6 +18,27 @@ DIFFERENTIABLE = {"Variable", "Subscript", "Call", "Sum", "Product", "Quotient",
 
 # DERIV: derivative of each supported elementary function with respect to its
 # argument p, as a rational function over atoms "<fn>(p)" and "p"
+def _fa(name, arg):
+    """atom for name(<arg>), arg a polynomial Rat: one canonical spelling for
+    the table's rows and the reference formulas"""
+    return Rat.atom(f"{name}({arg.n!r})")
+
+
+_P = lambda A: A("p")       # noqa: E731
+# rows the property names must be there; the OPTIONAL ones are judged when a
+# tree has them (a neutral patch may add elementary functions)
+OPTIONAL = {
+    "sqrt": lambda A: Rat.const(1) / (Rat.const(2) * A("sqrt(p)")),
+    "atan": lambda A: Rat.const(1) / (Rat.const(1) + _P(A) ** 2),
+    "asin": lambda A: Rat.const(1) / _fa("sqrt", Rat.const(1) - _P(A) ** 2),
+    "acos": lambda A: -Rat.const(1) / _fa("sqrt", Rat.const(1) - _P(A) ** 2),
+    "asinh": lambda A: Rat.const(1) / _fa("sqrt", _P(A) ** 2 + Rat.const(1)),
+    "acosh": lambda A: Rat.const(1) / _fa("sqrt", _P(A) ** 2 - Rat.const(1)),
+    "atanh": lambda A: Rat.const(1) / (Rat.const(1) - _P(A) ** 2),
+    "log1p": lambda A: Rat.const(1) / (Rat.const(1) + _P(A)),
+    "log2": lambda A: Rat.const(1) / (_P(A) * A("log(2)")),
+    "log10": lambda A: Rat.const(1) / (_P(A) * A("log(10)")),
+}
 DERIV = {
     "sin": lambda A: A("cos(p)"),
     "cos": lambda A: -A("sin(p)"),
@@ -276,6 +297,22 @@ def _row_of(ps, PARS):
     return fname, arity
 
 
+def _row_names(ps):
+    """the functions a `func in (make_f(a), make_f(b))` row serves"""
+    from ..summary import facts_of
+    for _, pol, v in ps.conds:
+        if not isinstance(v, tuple):
+            continue
+        for c, p_ in facts_of(v, pol):
+            if isinstance(c, tuple) and c and c[0] == "compare" and \
+                    c[1] == ("In",) and c[2] == ("param", "func") and p_ and \
+                    c[3][0][0] == "lit":
+                names = {_fn_name(x) for x in c[3][0][2]}
+                if None not in names:
+                    return names
+    return set()
+
+
 def _table(ctx, model):
     m, fn = model.func(f"{DIFF}:map_math_functions_by_name")
     loc = m.loc(fn)
@@ -289,6 +326,15 @@ def _table(ctx, model):
             return f"{_fn_name(v[4])}(p)"
         if v == ("index", PARS, 0):
             return "p"
+        # make_f("sqrt")(<polynomial in p>) / make_f("log")(2)
+        if v[0] == "call" and len(v) >= 5 and _fn_name(v[4]) and \
+                len(v[2]) == 1 and v[2][0][0] != "star":
+            try:
+                inner = _to_rat(v[2][0], atoms)
+            except Unsupported:
+                return None
+            if inner.d == RPoly.const(1):
+                return _fa(_fn_name(v[4]), inner)
         return None
 
     seen = {}
@@ -300,6 +346,35 @@ def _table(ctx, model):
         if fname is None:
             if ps.term == "raise":
                 final_raise = True
+            elif _row_names(ps):
+                # one row for several functions (func in (f, g)), told apart
+                # inside by `func == f` tests: one variant per function
+                from ..summary import split_conditionals
+                names = _row_names(ps)
+                split = split_conditionals(ps.retval) if ps.term == "return" \
+                    else [((), ps.retval)]
+                for extra_c, val in split:
+                    yes = {_fn_name(c.val[3][0]) for c, b in extra_c if b
+                           and isinstance(getattr(c, "val", None), tuple)
+                           and c.val[0] == "compare" and c.val[1] == ("Eq",)
+                           and c.val[2] == ("param", "func")}
+                    no = {_fn_name(c.val[3][0]) for c, b in extra_c if not b
+                          and isinstance(getattr(c, "val", None), tuple)
+                          and c.val[0] == "compare" and c.val[1] == ("Eq",)
+                          and c.val[2] == ("param", "func")}
+                    cand = (names & yes) if yes else (names - no)
+                    if len(cand) != 1:
+                        raise AnalysisError(
+                            f"{loc}: a row serves {sorted(names)} and the rule "
+                            "cannot tell which result belongs to which")
+
+                    class _V:
+                        pass
+                    v_ = _V()
+                    v_.term, v_.retval, v_.conds, v_.items = \
+                        ps.term, val, ps.conds, ps.items
+                    seen.setdefault(cand.pop(), []).append(
+                        (v_, None, _row_of(ps, PARS)[1]))
             else:
                 ctx.ob("P/table/unknown-function", False, loc,
                        "map_math_functions_by_name returns a derivative for a "
@@ -313,7 +388,8 @@ def _table(ctx, model):
                 elif v[1] == ("Eq",):
                     gate = ((v[3][0][1],), pol)
         seen.setdefault(fname, []).append((ps, gate, arity))
-    for fname, ref in DERIV.items():
+    for fname, ref in list(DERIV.items()) + [
+            (k, v) for k, v in OPTIONAL.items() if k in seen]:
         rows = seen.get(fname, [])
         if not rows:
             ctx.ob(f"E/table/{fname}", False, loc,
@@ -483,11 +559,15 @@ def _table(ctx, model):
            "an unrecognised function raises" if final_raise else
            "map_math_functions_by_name has no raising fall-through for "
            "unrecognised functions")
-    extra = sorted(set(seen) - set(DERIV) - set(NONSMOOTH) - set(DISCONTINUOUS))
-    ctx.ob("E/table/no-unchecked-rows", not extra, loc,
-           "every table row has a reference formula" if not extra else
-           f"table rows {extra} have no reference formula in the oracle",
-           nontrivial=False)
+    extra = sorted(set(seen) - set(DERIV) - set(OPTIONAL) - set(NONSMOOTH)
+                   - set(DISCONTINUOUS))
+    if extra:
+        # not a violation: the rule has no formula to compare these rows with
+        raise AnalysisError(f"{loc}: table rows {extra} have no reference "
+                            "formula in the oracle (pv/checks/c10.py DERIV / "
+                            "OPTIONAL): their derivatives cannot be judged")
+    ctx.ob("E/table/no-unchecked-rows", True, loc,
+           "every table row has a reference formula", nontrivial=False)
 
 
 # ---------------------------------------------------------------------------
